@@ -15,6 +15,22 @@ from .source import Module, norm
 from .symbols import ClassInfo, Symbols, isinstance_classes
 
 
+def _clone_ast(node):
+    """deep copy of an AST subtree that does not follow the `_parent` back links (copy.deepcopy would copy the module)"""
+    if isinstance(node, list):
+        return [_clone_ast(x) for x in node]
+    if not isinstance(node, ast.AST):
+        return node
+    new = type(node)()
+    for f in node._fields:
+        if hasattr(node, f):
+            setattr(new, f, _clone_ast(getattr(node, f)))
+    for a in ("lineno", "col_offset", "end_lineno", "end_col_offset"):
+        if hasattr(node, a):
+            setattr(new, a, getattr(node, a))
+    return new
+
+
 class Cond:
     def __init__(self, test, body, orelse, node):
         self.test = test  # residual test expression (ast) – symbolic
@@ -97,7 +113,7 @@ class Slicer:
                     return node.orelse
                 return node
 
-        new = T().visit(_copy.deepcopy(st))
+        new = T().visit(_clone_ast(st))
         ast.fix_missing_locations(new)
         for par in ast.walk(new):
             for ch in ast.iter_child_nodes(par):
